@@ -45,7 +45,7 @@ type Model struct {
 	Decl     map[*types.Func]*ast.FuncDecl
 	DeclPkg  map[*types.Func]*packages.Package
 	FileOf   map[*ast.File]*packages.Package
-	Overlays []string // overlay (positive control) file names
+	Overlays []string        // overlay (positive control) file names
 	Prod     map[string]bool // module packages in the import closure of the public packages autog and autog/graph
 
 	effects map[*ssa.Function]*Effects // lazily computed
